@@ -32,8 +32,9 @@ def main():
     sd = os.path.abspath(args[0])
     if not os.path.exists(VERIF):
         sh(["git", "-C", MAIN_VERIF, "worktree", "add", "--detach", VERIF, "HEAD"])
+    sh(["git", "-C", VERIF, "reset", "--hard", "-q"])
     sh(["git", "-C", VERIF, "checkout", "-q", "--detach", subprocess.run(["git", "-C", MAIN_VERIF, "rev-parse", "HEAD"], stdout=subprocess.PIPE, text=True).stdout.strip()])
-    sh(["git", "-C", VERIF, "checkout", "--", "."])
+    sh(["git", "-C", VERIF, "reset", "--hard", "-q"])
     confirm = "--no-confirm" not in args
     tier = args[args.index("--tier") + 1] if "--tier" in args else "quick"
     meta = json.load(open(os.path.join(sd, "meta.json")))
